@@ -1,10 +1,8 @@
 package props
 
 import (
-	"fmt"
 	"go/token"
 	"math"
-	"sort"
 	"strings"
 
 	"godcheck/core"
@@ -504,28 +502,38 @@ func c06(r *core.Run) {
 			return
 		}
 		r.Fn(core.FuncName(f))
-		tab, def, ok := switchTable(f)
-		if !ok {
-			o.Unres("nextDelay is not a finite constant table")
-			return
-		}
-		o.Site(len(tab), core.FuncName(f))
-		want := map[int64]int64{1e9: 5e9, 5e9: 60e9, 60e9: 300e9, 300e9: 3600e9}
-		var ks []int64
-		for k := range tab {
-			ks = append(ks, k)
-		}
-		sort.Slice(ks, func(i, j int) bool { return ks[i] < ks[j] })
-		for _, k := range ks {
-			if tab[k] <= k {
-				o.Fail(p.Pos(f.Pos()), "delay chain not increasing: %d → %d", k, tab[k])
+		// the function is evaluated on the chain's members and on values outside it (a switch, an
+		// if-chain and a lookup over a constant ladder all evaluate alike)
+		want := []int64{1e9, 5e9, 60e9, 300e9, 3600e9}
+		o.Site(len(want), core.FuncName(f))
+		for i, d := range want {
+			res, ok := p.Eval(f, core.EvalInt(d))
+			if !ok || len(res) != 2 {
+				o.Unres("nextDelay cannot be evaluated on constants (not a pure function over constant tables)")
+				return
+			}
+			next, _ := core.AsInt(res[0])
+			more, _ := core.AsBool(res[1])
+			switch {
+			case i+1 < len(want) && (!more || next != want[i+1]):
+				o.Fail(p.Pos(f.Pos()), "delay chain: nextDelay(%dns) = (%dns, %v), expected (%dns, true)", d, next, more, want[i+1])
+			case i+1 == len(want) && more:
+				o.Fail(p.Pos(f.Pos()), "delay chain does not stop after %dns: nextDelay = (%dns, true)", d, next)
+			}
+			if more && next <= d {
+				o.Fail(p.Pos(f.Pos()), "delay chain not increasing: %d → %d", d, next)
 			}
 		}
-		if fmt.Sprint(tab) != fmt.Sprint(want) {
-			o.Fail(p.Pos(f.Pos()), "delay chain is %v, expected %v (ns)", tab, want)
-		}
-		if strings.Join(def, ",") != "const:0,const:false" {
-			o.Fail(p.Pos(f.Pos()), "default arm returns (%s), expected (0,false)", strings.Join(def, ","))
+		for _, d := range []int64{0, 1, -1e9, 2e9, 10e9, 3600e9 + 1, 1 << 62} {
+			res, ok := p.Eval(f, core.EvalInt(d))
+			if !ok || len(res) != 2 {
+				o.Unres("nextDelay cannot be evaluated on constants")
+				return
+			}
+			if more, _ := core.AsBool(res[1]); more {
+				next, _ := core.AsInt(res[0])
+				o.Fail(p.Pos(f.Pos()), "nextDelay(%dns) = (%dns, true) for a delay outside the chain, expected (_, false)", d, next)
+			}
 		}
 		// first delay is 1s at AddCleanTask
 		g := p.Func(cachePkg, "", "AddCleanTask")
@@ -534,7 +542,7 @@ func c06(r *core.Run) {
 			for _, s := range core.Calls(g, core.CallMethod("collection.TimingWheel", "SetTimer")) {
 				o.Site(1)
 				args := core.Args(s)
-				if d, ok := core.ConstInt(args[len(args)-1]); !ok || d != 1e9 {
+				if d, ok := core.ConstInt(core.ForwardField(args[len(args)-1])); !ok || d != 1e9 {
 					o.Fail(p.InstrPos(s), "first retry delay is not 1s")
 				}
 			}
